@@ -2,6 +2,7 @@
 package c12
 
 import (
+	"os"
 	"bytes"
 	"fmt"
 
@@ -32,8 +33,16 @@ func Run(r *ev.Run) {
 	}
 	rng := gen.New(r.Seed, "c12")
 	nA := r.Pick(40, 1500)
+	only := -1
+	if v := os.Getenv("VERIF_C12_SESSION"); v != "" {
+		fmt.Sscan(v, &only)
+	}
 	for s := 0; s < nA; s++ {
-		relaySession(r, gen.New(r.Seed, fmt.Sprintf("c12a-%d-%d", s, rng.Int63())), s)
+		srng := gen.New(r.Seed, fmt.Sprintf("c12a-%d-%d", s, rng.Int63()))
+		if only >= 0 && s != only {
+			continue
+		}
+		relaySession(r, srng, s)
 	}
 	nB := r.Pick(20, 600)
 	for s := 0; s < nB; s++ {
@@ -63,44 +72,55 @@ func bigValue(r *gen.Rand) []byte {
 	}
 }
 
+// scriptedReply builds a protocol-valid reply to one simple Query: asynchronous messages (Notice, Notification, ParameterStatus)
+// anywhere, exactly one statement outcome (row set + CommandComplete | CommandComplete | EmptyQueryResponse | ErrorResponse), ReadyForQuery.
 func scriptedReply(r *gen.Rand) []pgproto3.BackendMessage {
 	var out []pgproto3.BackendMessage
-	n := 1 + r.Intn(4)
-	for i := 0; i < n; i++ {
-		switch r.Intn(9) {
-		case 0:
-			out = append(out, &pgproto3.NoticeResponse{Severity: "WARNING", SeverityUnlocalized: "WARNING", Code: "01000", Message: "notice " + string(gen.Content(r, "ascii", 5+r.Intn(20))), Detail: "d", Hint: "h", Where: "w"})
-		case 1:
-			out = append(out, &pgproto3.NotificationResponse{PID: r.Uint32(), Channel: "chan", Payload: string(gen.Content(r, "ascii", r.Intn(40)))})
-		case 2:
-			out = append(out, &pgproto3.ParameterStatus{Name: "application_name", Value: string(gen.Content(r, "ascii", r.Intn(12)))})
-		case 3, 4, 5:
-			nf := 1 + r.Intn(5)
-			rd := &pgproto3.RowDescription{}
-			for f := 0; f < nf; f++ {
-				rd.Fields = append(rd.Fields, pgproto3.FieldDescription{Name: []byte(fmt.Sprintf("f%d", f)), TableOID: r.Uint32(), TableAttributeNumber: uint16(r.Intn(100)), DataTypeOID: []uint32{17, 23, 25, 20, 1043, 2950}[r.Intn(6)], DataTypeSize: int16(r.Intn(20) - 1), TypeModifier: -1, Format: int16(r.Intn(2))})
+	async := func() {
+		for k := r.Intn(3); k > 0; k-- {
+			switch r.Intn(3) {
+			case 0:
+				out = append(out, &pgproto3.NoticeResponse{Severity: "WARNING", SeverityUnlocalized: "WARNING", Code: "01000", Message: "notice " + string(gen.Content(r, "ascii", 5+r.Intn(20))), Detail: "d", Hint: "h", Where: "w"})
+			case 1:
+				out = append(out, &pgproto3.NotificationResponse{PID: r.Uint32(), Channel: "chan", Payload: string(gen.Content(r, "ascii", r.Intn(40)))})
+			default:
+				out = append(out, &pgproto3.ParameterStatus{Name: "application_name", Value: string(gen.Content(r, "ascii", r.Intn(12)))})
 			}
-			out = append(out, rd)
-			for rows := r.Intn(4); rows > 0; rows-- {
-				dr := &pgproto3.DataRow{}
-				for f := 0; f < nf; f++ {
-					if r.Intn(5) == 0 {
-						dr.Values = append(dr.Values, nil)
-					} else {
-						dr.Values = append(dr.Values, bigValue(r))
-					}
-				}
-				out = append(out, dr)
-			}
-			out = append(out, &pgproto3.CommandComplete{CommandTag: []byte("SELECT 3")})
-		case 6:
-			out = append(out, &pgproto3.EmptyQueryResponse{})
-		case 7:
-			out = append(out, &pgproto3.ErrorResponse{Severity: "ERROR", SeverityUnlocalized: "ERROR", Code: "42P01", Message: "relation does not exist", Detail: "detail", Hint: "hint", Position: 15, InternalPosition: 2, InternalQuery: "iq", Where: "where", SchemaName: "s", TableName: "t", ColumnName: "c", DataTypeName: "d", ConstraintName: "k", File: "f.c", Line: 42, Routine: "r"})
-		default:
-			out = append(out, &pgproto3.CommandComplete{CommandTag: []byte("UPDATE 0")})
 		}
 	}
+	async()
+	switch r.Intn(6) {
+	case 0, 1, 2:
+		nf := 1 + r.Intn(5)
+		rd := &pgproto3.RowDescription{}
+		for f := 0; f < nf; f++ {
+			rd.Fields = append(rd.Fields, pgproto3.FieldDescription{Name: []byte(fmt.Sprintf("f%d", f)), TableOID: r.Uint32(), TableAttributeNumber: uint16(r.Intn(100)), DataTypeOID: []uint32{17, 23, 25, 20, 1043, 2950}[r.Intn(6)], DataTypeSize: int16(r.Intn(20) - 1), TypeModifier: -1, Format: 0})
+		}
+		out = append(out, rd)
+		nrows := r.Intn(4)
+		for rows := nrows; rows > 0; rows-- {
+			dr := &pgproto3.DataRow{}
+			for f := 0; f < nf; f++ {
+				if r.Intn(5) == 0 {
+					dr.Values = append(dr.Values, nil)
+				} else {
+					dr.Values = append(dr.Values, bigValue(r))
+				}
+			}
+			out = append(out, dr)
+			if r.Intn(6) == 0 {
+				async()
+			}
+		}
+		out = append(out, &pgproto3.CommandComplete{CommandTag: []byte(fmt.Sprintf("SELECT %d", nrows))})
+	case 3:
+		out = append(out, &pgproto3.EmptyQueryResponse{})
+	case 4:
+		out = append(out, &pgproto3.ErrorResponse{Severity: "ERROR", SeverityUnlocalized: "ERROR", Code: "42P01", Message: "relation does not exist", Detail: "detail", Hint: "hint", Position: 15, InternalPosition: 2, InternalQuery: "iq", Where: "where", SchemaName: "s", TableName: "t", ColumnName: "c", DataTypeName: "d", ConstraintName: "k", File: "f.c", Line: 42, Routine: "r"})
+	default:
+		out = append(out, &pgproto3.CommandComplete{CommandTag: []byte("UPDATE 0")})
+	}
+	async()
 	out = append(out, &pgproto3.ReadyForQuery{TxStatus: []byte{'I', 'T', 'E'}[r.Intn(3)]})
 	return out
 }
